@@ -379,7 +379,7 @@ def run(rep):
                     if quick and dt == 0.5 and rule in ("da-kernel", "da-kerneld"):
                         continue
                     jobs.append((shard, (rule, "dense", (1, 1), T1, dt, sign, sched)))
-        for conn, nio in (("dense", (2, 2)), ("direct", (2, 2)), ("lateral", (2, 2)), ("conv", (1, 1)), ("conv2c", (1, 1))):
+        for conn, nio in (("dense", (2, 2)), ("direct", (2, 2)), ("lateral", (2, 2)), ("conv", (1, 1)), ("conv2c", (1, 1)), ("densemd", (2, 2))):
             for sign in ("hebbian", "anti"):
                 jobs.append((shard, (rule, conn, nio, T2, 1.0, sign, "const")))
         for sign in ("hebbian", "dep"):
